@@ -1,0 +1,145 @@
+//go:build verif
+
+package parser
+
+// Contracts for the spec parser, checked by /verif/bin/govc (comment-only file; compiles to nothing).
+
+// --- cursor primitives ------------------------------------------------------------------------------------------------
+//@ func (*parser).eof
+//@   requires recv: p != nil
+//@   ensures def: result == (p.tkpos >= len(p.tokens))
+
+//@ func (*parser).token
+//@   requires recv: p != nil && 0 <= p.tkpos
+//@   ensures def: result == (p.tkpos >= len(p.tokens) ? nil : p.tokens[p.tkpos])
+
+//@ func (*parser).is
+//@   requires wf: p != nil && 0 <= p.tkpos && (forall k int :: 0 <= k && k < len(p.tokens) ==> p.tokens[k] != nil)
+//@   ensures def: result == (p.tkpos < len(p.tokens) && p.tokens[p.tkpos].Typ == t)
+
+//@ func (*parser).found
+//@   requires wf: p != nil && 0 <= p.tkpos && (forall k int :: 0 <= k && k < len(p.tokens) ==> p.tokens[k] != nil)
+//@   ensures def: result == old(p.tkpos < len(p.tokens) && p.tokens[p.tkpos].Typ == t)
+//@   ensures hit: result ==> p.tkpos == old(p.tkpos) + 1 && p.matchedToken == old(p.tokens[p.tkpos])
+//@   ensures miss: !result ==> p.tkpos == old(p.tkpos) && p.matchedToken == old(p.matchedToken)
+//@   ensures frame: frame(p.tkpos) && frame(p.matchedToken)
+
+//@ func (*parser).expect
+//@   requires wf: p != nil && 0 <= p.tkpos && (forall k int :: 0 <= k && k < len(p.tokens) ==> p.tokens[k] != nil)
+//@   ensures hit: old(p.tkpos < len(p.tokens) && p.tokens[p.tkpos].Typ == t) && p.tkpos == old(p.tkpos) + 1 && p.matchedToken == old(p.tokens[p.tkpos])
+//@   ensures frame: frame(p.tkpos) && frame(p.matchedToken)
+//@   panics missing: !old(p.tkpos < len(p.tokens) && p.tokens[p.tkpos].Typ == t) && isType(panicval, "string") &&
+//@       unchanged(p.tkpos) && unchanged(p.matchedToken)
+
+//@ func (*parser).back
+//@   requires recv: p != nil
+//@   ensures def: p.tkpos == old(p.tkpos) - 1 && frame(p.tkpos)
+
+//@ pure func atomStart(t string) bool = t == lexer.TTArg || t == lexer.TTOptions || t == lexer.TTShortOpt || t == lexer.TTLongOpt ||
+//@     t == lexer.TTOptSeq || t == lexer.TTOpenPar || t == lexer.TTOpenSq || t == lexer.TTDoubleDash
+
+//@ func (*parser).canAtom
+//@   requires wf: p != nil && 0 <= p.tkpos && (forall k int :: 0 <= k && k < len(p.tokens) ==> p.tokens[k] != nil)
+//@   ensures def: result == (p.tkpos < len(p.tokens) && atomStart(p.tokens[p.tkpos].Typ))
+
+// --- recursive descent (C08 parser side, C01 link O3, C03) -------------------------------------------------------------
+// Measure: (tokens left, rank) with rank seq 2 > choice 1 > atom 0; atom consumes a token before re-entering seq.
+// Every error is a panic with a string, raised with the cursor on a token of the spec (or at its end).
+//@ pure func isOptTok(t string) bool = t == lexer.TTOptions || t == lexer.TTShortOpt || t == lexer.TTLongOpt || t == lexer.TTOptSeq
+
+//@ func (*parser).atom
+//@   requires wf: p != nil && 0 <= p.tkpos && p.tkpos <= len(p.tokens) && (forall k int :: 0 <= k && k < len(p.tokens) ==> p.tokens[k] != nil)
+//@   requires lexed: forall k int :: {p.tokens[k]} 0 <= k && k < len(p.tokens) ==> tokShape(p.spec, p.tokens[k].Typ, p.tokens[k].Val, p.tokens[k].Pos)
+//@   decreases len(p.tokens) - p.tkpos
+//@   decreases 0
+//@   reveal tokShape
+//@   let typ = p.tokens[p.tkpos].Typ
+//@   let name = p.tokens[p.tkpos].Val
+//@   let pos0 = p.tkpos
+//@   let rej0 = p.rejectOptions
+//@   ensures progress: old(p.tkpos) < len(p.tokens) && p.tkpos > old(p.tkpos) && p.tkpos <= len(p.tokens)
+//@   ensures old-states: oldUnchanged(result0.Transitions) && oldUnchanged(result0.Terminal)
+//@   ensures states: result0 != nil && result1 != nil && fresh(result0) && fresh(result1)
+//@   ensures first-set: atomStart(typ)
+//@   ensures declared-arg: typ == lexer.TTArg ==> (name in p.argsIdx)
+//@   ensures declared-opt: (typ == lexer.TTShortOpt || typ == lexer.TTLongOpt) ==> (name in p.optionsIdx)
+//@   ensures declared-seq: typ == lexer.TTOptSeq ==> (forall j int :: 0 <= j && j < len(name) ==> (("-" + name[j:j+1]) in p.optionsIdx))
+//@   ensures no-options-after-dd: isOptTok(typ) ==> !rej0
+//@   ensures dd-sets-flag: (rej0 || typ == lexer.TTDoubleDash) ==> p.rejectOptions
+//@   ensures leaf-arg: typ == lexer.TTArg ==> len(result0.Transitions) >= 1 && isType(result0.Transitions[0].Matcher, "*matcher.arg") &&
+//@       asType(result0.Transitions[0].Matcher, "*matcher.arg").arg == p.argsIdx[name] && result0.Transitions[0].Next == result1
+//@   ensures leaf-opt: (typ == lexer.TTShortOpt || typ == lexer.TTLongOpt) ==> len(result0.Transitions) >= 1 && isType(result0.Transitions[0].Matcher, "*matcher.opt") &&
+//@       asType(result0.Transitions[0].Matcher, "*matcher.opt").theOne == p.optionsIdx[name] &&
+//@       asType(result0.Transitions[0].Matcher, "*matcher.opt").index == p.optionsIdx && result0.Transitions[0].Next == result1
+//@   ensures leaf-options: typ == lexer.TTOptions ==> len(result0.Transitions) >= 1 && isType(result0.Transitions[0].Matcher, "*matcher.options") &&
+//@       asType(result0.Transitions[0].Matcher, "*matcher.options").options == p.options &&
+//@       asType(result0.Transitions[0].Matcher, "*matcher.options").index == p.optionsIdx && result0.Transitions[0].Next == result1
+//@   ensures leaf-seq: typ == lexer.TTOptSeq ==> len(result0.Transitions) >= 1 && isType(result0.Transitions[0].Matcher, "*matcher.options") &&
+//@       asType(result0.Transitions[0].Matcher, "*matcher.options").index == p.optionsIdx &&
+//@       len(asType(result0.Transitions[0].Matcher, "*matcher.options").options) == len(name) &&
+//@       (forall j int :: 0 <= j && j < len(name) ==> asType(result0.Transitions[0].Matcher, "*matcher.options").options[j] == p.optionsIdx["-" + name[j:j+1]]) &&
+//@       result0.Transitions[0].Next == result1
+//@   ensures leaf-dd: typ == lexer.TTDoubleDash ==> len(result0.Transitions) == 1 && isType(result0.Transitions[0].Matcher, "matcher.optsEnd") &&
+//@       result0.Transitions[0].Next == result1 && p.tkpos == pos0 + 1
+//@   panics syntax: isType(panicval, "string") && 0 <= p.tkpos && p.tkpos <= len(p.tokens)
+//@   loop 1 invariant built: 0 <= iterpos() && iterpos() <= len(sq) && len(opts) == iterpos() && sq == name &&
+//@       (forall j int :: 0 <= j && j < len(opts) ==> (("-" + sq[j:j+1]) in p.optionsIdx) && opts[j] == p.optionsIdx["-" + sq[j:j+1]])
+
+//@ func (*parser).choice
+//@   requires wf: p != nil && 0 <= p.tkpos && p.tkpos <= len(p.tokens) && (forall k int :: 0 <= k && k < len(p.tokens) ==> p.tokens[k] != nil)
+//@   requires lexed: forall k int :: {p.tokens[k]} 0 <= k && k < len(p.tokens) ==> tokShape(p.spec, p.tokens[k].Typ, p.tokens[k].Val, p.tokens[k].Pos)
+//@   decreases len(p.tokens) - p.tkpos
+//@   decreases 1
+//@   ensures progress: p.tkpos > old(p.tkpos) && p.tkpos <= len(p.tokens)
+//@   ensures old-states: oldUnchanged(result0.Transitions) && oldUnchanged(result0.Terminal)
+//@   ensures states: result0 != nil && result1 != nil && fresh(result0) && fresh(result1) &&
+//@       (forall i int :: {result0.Transitions[i]} 0 <= i && i < len(result0.Transitions) ==> result0.Transitions[i] != nil)
+//@   ensures reject-monotone: old(p.rejectOptions) ==> p.rejectOptions
+//@   panics syntax: isType(panicval, "string") && 0 <= p.tkpos && p.tkpos <= len(p.tokens)
+//@   loop 1 invariant cursor: p.tkpos > tkpos_in && p.tkpos <= len(p.tokens)
+//@   loop 1 invariant live: start != nil && end != nil
+//@   loop 1 invariant trans: forall i int :: {start.Transitions[i]} 0 <= i && i < len(start.Transitions) ==> start.Transitions[i] != nil
+//@   loop 1 invariant rej: rej_in ==> p.rejectOptions
+//@   loop 1 invariant old-states: oldUnchanged(start.Transitions) && oldUnchanged(start.Terminal) && fresh(start) && fresh(end)
+//@   let tkpos_in = p.tkpos
+//@   let rej_in = p.rejectOptions
+
+//@ func (*parser).seq
+//@   requires wf: p != nil && 0 <= p.tkpos && p.tkpos <= len(p.tokens) && (forall k int :: 0 <= k && k < len(p.tokens) ==> p.tokens[k] != nil)
+//@   requires lexed: forall k int :: {p.tokens[k]} 0 <= k && k < len(p.tokens) ==> tokShape(p.spec, p.tokens[k].Typ, p.tokens[k].Val, p.tokens[k].Pos)
+//@   decreases len(p.tokens) - p.tkpos
+//@   decreases 2
+//@   ensures progress: p.tkpos >= old(p.tkpos) && (required ==> p.tkpos > old(p.tkpos)) && p.tkpos <= len(p.tokens)
+//@   ensures old-states: oldUnchanged(result0.Transitions) && oldUnchanged(result0.Terminal)
+//@   ensures states: result0 != nil && result1 != nil && fresh(result0) && fresh(result1)
+//@   ensures reject-monotone: old(p.rejectOptions) ==> p.rejectOptions
+//@   ensures stops: !(p.tkpos < len(p.tokens) && atomStart(p.tokens[p.tkpos].Typ))
+//@   panics syntax: isType(panicval, "string") && 0 <= p.tkpos && p.tkpos <= len(p.tokens)
+//@   let tkpos_in = p.tkpos
+//@   let rej_in = p.rejectOptions
+//@   loop 1 invariant cursor: p.tkpos >= tkpos_in && (required ==> p.tkpos > tkpos_in) && p.tkpos <= len(p.tokens)
+//@   loop 1 invariant live: start != nil && end != nil
+//@   loop 1 invariant rej: rej_in ==> p.rejectOptions
+//@   loop 1 invariant old-states: oldUnchanged(start.Transitions) && oldUnchanged(start.Terminal) && fresh(start) && fresh(end)
+//@   loop 1 decreases len(p.tokens) - p.tkpos
+
+//@ func (*parser).seq$1
+//@   inline
+//@   loop 1 invariant live: end != nil && fresh(end) && oldUnchanged(end.Transitions) && oldUnchanged(end.Terminal)
+
+// --- entry points: string panics become positioned errors (C03, C08) ---------------------------------------------------------
+//@ func (*parser).parse
+//@   requires wf: p != nil && p.tkpos == 0 && (forall k int :: 0 <= k && k < len(p.tokens) ==> p.tokens[k] != nil)
+//@   requires lexed: forall k int :: {p.tokens[k]} 0 <= k && k < len(p.tokens) ==> tokShape(p.spec, p.tokens[k].Typ, p.tokens[k].Val, p.tokens[k].Pos)
+//@   reveal tokShape
+//@   ensures error: err != nil ==> s == nil && isType(err, "*lexer.ParseError") && asType(err, "*lexer.ParseError").Input == p.spec &&
+//@       0 <= asType(err, "*lexer.ParseError").Pos && asType(err, "*lexer.ParseError").Pos <= len(p.spec)
+//@   ensures error-at-token: err != nil ==> (p.tkpos < len(p.tokens) ? asType(err, "*lexer.ParseError").Pos == p.tokens[p.tkpos].Pos : asType(err, "*lexer.ParseError").Pos == len(p.spec))
+//@   ensures ok: err == nil ==> s != nil && p.tkpos == len(p.tokens)
+
+//@ func Parse
+//@   requires tokens: forall k int :: 0 <= k && k < len(tokens) ==> tokens[k] != nil
+//@   requires lexed: forall k int :: {tokens[k]} 0 <= k && k < len(tokens) ==> tokShape(params.Spec, tokens[k].Typ, tokens[k].Val, tokens[k].Pos)
+//@   ensures error: result1 != nil ==> result0 == nil && isType(result1, "*lexer.ParseError") && asType(result1, "*lexer.ParseError").Input == params.Spec &&
+//@       0 <= asType(result1, "*lexer.ParseError").Pos && asType(result1, "*lexer.ParseError").Pos <= len(params.Spec)
+//@   ensures ok: result1 == nil ==> result0 != nil
